@@ -185,6 +185,11 @@ def execute(case, ctx):
         for k, v in st['headers']:
             if got_headers.get(k) != v:
                 ctx.viol('C10:header-lost', 'armor header %s: %s is not in the output' % (k, v))
+        # ... and no header that was given to another object
+        supplied = dict(st['headers'])
+        for k, v in blk.headers:
+            if k not in supplied and k not in ('Hash',) and not (k == 'Charset' and st['kind'] == 'cleartext'):
+                ctx.viol('C10:header-not-supplied', 'armor header %s: %s was never given to this %s' % (k, v[:30], st['kind']))
         kinds.add(st['kind'])
         # ---- (2) loading armored text gives the same object as loading the binary
         cls = {'message': pgpy.PGPMessage, 'cleartext': pgpy.PGPMessage, 'pubkey': pgpy.PGPKey, 'privkey': pgpy.PGPKey,
